@@ -334,7 +334,7 @@ def _valid_abstract(EX, claim, ms):
         return False
 
 
-def bilateral(R=3, C=3, sigma_space=0.7, sigma_color=2.0, cap=120, block=(), value=False, conc_mask=None, seed=0):
+def bilateral(R=3, C=3, sigma_space=0.7, sigma_color=2.0, cap=120, block=(), value=False, conc_mask=None, seed=0, pre_sigma=None):
     """bilateral filter in the exact/real domain: exp is an uninterpreted positive function, weights and the weighted mean are
     rational arithmetic ("reals-for-floats"); decides mask / invalid / edge untouched and min <= result <= max of the valid window"""
     import xarray as xr
@@ -357,6 +357,12 @@ def bilateral(R=3, C=3, sigma_space=0.7, sigma_color=2.0, cap=120, block=(), val
                 EX.assume(e_.t == int(mb[r_, c_]))
         d0 = d.copy(); m0 = m.copy()
         ds = xr.Dataset({"disparity_map": (["row", "col"], d), "validity_mask": (["row", "col"], m)}, coords={"row": np.arange(R), "col": np.arange(C)})
+        if pre_sigma is not None:
+            # history: another bilateral filter (other sigma_space, same window width) ran before in this process on some other map
+            pm = S.SymArray(np.arange(R * C, dtype=np.float32).reshape(R, C), 'x4')
+            pds = xr.Dataset({"disparity_map": (["row", "col"], pm), "validity_mask": (["row", "col"], S.SymArray(np.zeros((R, C), np.uint16), 'u2'))},
+                             coords={"row": np.arange(R), "col": np.arange(C)})
+            AbstractFilter(cfg={"filter_method": "bilateral", "sigma_space": pre_sigma, "sigma_color": sigma_color}, image_shape=(R, C)).filter_disparity(pds)
         f = AbstractFilter(cfg={"filter_method": "bilateral", "sigma_space": sigma_space, "sigma_color": sigma_color}, image_shape=(R, C))
         win = min(R, C, int(3 * sigma_space + 1)); off = int(win / 2)
         from fractions import Fraction
@@ -364,7 +370,7 @@ def bilateral(R=3, C=3, sigma_space=0.7, sigma_color=2.0, cap=120, block=(), val
         # spatial Gaussian from the documentation (concrete): exp(-(dist/sigma_space)^2/2) / (sigma_space sqrt(2 pi))
         GS = np.array([[np.exp(-((np.sqrt((i - win // 2) ** 2 + (j - win // 2) ** 2) / sigma_space) ** 2) * 0.5) / (sigma_space * np.sqrt(2 * np.pi))
                         for j in range(win)] for i in range(win)])
-        ex = {'filter': 'bilateral', 'R': R, 'C': C, 'sigma_space': sigma_space, 'sigma_color': sigma_color}
+        ex = {'filter': 'bilateral', 'R': R, 'C': C, 'sigma_space': sigma_space, 'sigma_color': sigma_color, 'pre_sigma': pre_sigma}
         try:
             f.filter_disparity(ds)
         except S.Unsupported:
@@ -417,7 +423,9 @@ def bilateral(R=3, C=3, sigma_space=0.7, sigma_color=2.0, cap=120, block=(), val
                 claim = z3.Implies(valid(r, c), oval * B == A)
                 props.append(("valid-pixel-is-the-bilateral-weighted-mean-of-its-valid-window[%d,%d]" % (r, c),
                               z3.BoolVal(True) if _valid_abstract(EX, claim, cap * 500) else claim))
-        col.check_path(props, label='p%d' % len(EX.trace), extra=ex, group=False, witnesses=[("reached", z3.BoolVal(True))])
+        rngp = np.random.RandomState(seed + 13)
+        pins = [z3.And(*[e_.t.val == z3.RealVal(int(rngp.randint(-8, 9))) / 4 for e_ in d0._a.flat if isinstance(e_, S.Sym)]) for _ in range(2)] if value else []
+        col.check_path(props, label='p%d' % len(EX.trace), extra=ex, group=False, witnesses=[("reached", z3.BoolVal(True))], pins=pins)
         info['fn'] = instr.fn_hash(BF.BilateralFilter.filter_disparity, BF.BilateralFilter.filter_bilateral, BF.BilateralFilter.bilateral_kernel)
     res, stats = explore(h, max_paths=8)
     return col.result(stats, functions=info.get('fn', {}),
@@ -542,6 +550,10 @@ def replay_bilateral(cex):
     d = np.array(inp['d'], np.float32).reshape(R, C); m = np.array(inp['dm'], np.uint16).reshape(R, C)
     ds = xr.Dataset({"disparity_map": (["row", "col"], d.copy()), "validity_mask": (["row", "col"], m.copy())}, coords={"row": np.arange(R), "col": np.arange(C)})
     try:
+        if x.get('pre_sigma') is not None:
+            pm = np.arange(R * C, dtype=np.float32).reshape(R, C)
+            pds = xr.Dataset({"disparity_map": (["row", "col"], pm), "validity_mask": (["row", "col"], np.zeros((R, C), np.uint16))}, coords={"row": np.arange(R), "col": np.arange(C)})
+            AbstractFilter(cfg={"filter_method": "bilateral", "sigma_space": x['pre_sigma'], "sigma_color": x['sigma_color']}, image_shape=(R, C)).filter_disparity(pds)
         AbstractFilter(cfg={"filter_method": "bilateral", "sigma_space": x['sigma_space'], "sigma_color": x['sigma_color']}, image_shape=(R, C)).filter_disparity(ds)
     except Exception as e:      # noqa
         return {'violates': True, 'detail': 'bilateral filter raised %r' % (e,)}
